@@ -375,3 +375,30 @@ def gen_plan(seed, prof=None, prop="GEN"):
 
 def plan_json(plan):
     return json.dumps(plan, sort_keys=True)
+
+
+def nan_stratum(plan, seed):
+    """Turn a tree plan into one of the NaN stratum: the objective is NaN on a slab of the box and the engines are
+    the ones that tolerate NaN fitness values (SEA family, DE, SHADE, LHS, Sobol, custom random search)."""
+    import random as _r
+
+    if "levels" not in plan:
+        return plan
+    r = _r.Random(seed ^ 0x4E414E)
+    box = plan["box"]
+    lo0, hi0 = box[0]
+    plan["objective"] = {"kind": "nanregion", "sign": plan["objective"].get("sign", 1.0), "scale": 1.0, "offset": 0.0,
+                         "center": [lo + (hi - lo) * 0.6 for lo, hi in box],
+                         "nan_below": lo0 + (hi0 - lo0) * r.choice([0.15, 0.3, 0.45])}
+    minr = min(hi - lo for lo, hi in box)
+    for li, l in enumerate(plan["levels"]):
+        if l["engine"] in ("cma", "local") or l.get("ea") == "MWEA":
+            plan["levels"][li] = {"engine": "de", "pop_size": r.randint(4, 10), "generations": r.choice([1, 2]),
+                                  "dither": r.random() < 0.5, "scaling": 0.8, "crossover": 0.9,
+                                  "sample_std_dev": minr * 0.1, "lsc": l["lsc"]}
+    for st in plan["stacks"]:
+        st["layers"] = [x for x in st["layers"] if x["kind"] != "precision"]
+    if plan["gsc"]["kind"] == "precision":
+        plan["gsc"] = {"kind": "metaepoch_limit", "limit": r.randint(3, 8)}
+    plan["nan_stratum"] = True
+    return plan
